@@ -239,6 +239,10 @@ func (r *Run) Seq(fn func(w *W)) {
 func (w *W) safe(fn func()) {
 	defer func() {
 		if e := recover(); e != nil {
+			if msg := fmt.Sprint(e); strings.HasPrefix(msg, "harness:") || strings.HasPrefix(msg, "oracle:") {
+				w.R.SelfFail("machinery panic (not a property violation): %s", msg)
+				return
+			}
 			c := Case{Prop: w.R.Prop, Op: "panic", Got: fmt.Sprint("panic: ", e), Want: "no panic"}
 			if w.Cur.Op != "" {
 				c.Op = w.Cur.Op
